@@ -14,6 +14,7 @@ CONSTANTS
   Deltas <- DNat
   OtherKinds <- AllOther
   Strict = FALSE
+  ExK = 1
   D = 0
 INIT TrInit
 NEXT TrNext
